@@ -14,7 +14,7 @@ CBMC_CHECKS = ["--bounds-check", "--pointer-check", "--pointer-overflow-check",
                "--signed-overflow-check", "--conversion-check", "--div-by-zero-check",
                "--no-pointer-primitive-check"]
 OBJECT_BITS = "12"
-MEM_KB = 12 * 1024 * 1024
+MEM_KB = 30 * 1024 * 1024
 
 
 def _limits():
@@ -82,7 +82,8 @@ def run_job(job, bdir, backends=("cadical",), timeout=300, trace=False, incdirs=
         return job
     cmd = ["goto-instrument", "--dfcc", job.entry]
     if job.enforce:
-        cmd += ["--enforce-contract-rec" if job.rec else "--enforce-contract", job.enforce]
+        cmd += ["--enforce-contract-rec" if job.rec else "--enforce-contract",
+                job.enforce + ("/" + job.contract if getattr(job, "contract", None) else "")]
     for r in job.replace:
         cmd += ["--replace-call-with-contract", r]
     if not (job.unwind and job.kind == "function"):
@@ -101,7 +102,8 @@ def run_job(job, bdir, backends=("cadical",), timeout=300, trace=False, incdirs=
             # declared array size); the loops of the DFCC library keep cbmc's own handling
             rc0, out0, _, _ = run(["cbmc", gb2, "--show-loops"], 120)
             ids = re.findall(r"^Loop (\S+):", out0, re.M)
-            mine = [i for i in ids if not i.startswith("__CPROVER") and not i.startswith("h_")]
+            names = ([job.enforce] if job.enforce else []) + list(getattr(job, "unwind_fns", []) or [])
+            mine = [i for i in ids if any(i.startswith(n + ".") or i.startswith(n + "_wrapped_for_contract_checking.") for n in names)]
             if job.kind == "lemma":
                 mine = [i for i in ids if not i.startswith("__CPROVER")]
             if mine:
@@ -109,7 +111,7 @@ def run_job(job, bdir, backends=("cadical",), timeout=300, trace=False, incdirs=
         if trace:
             cmd += ["--trace"]
         job.cmds.append(" ".join(cmd))
-        rc, out, err, secs = run(cmd, timeout)
+        rc, out, err, secs = run(cmd, max(timeout, getattr(job, "timeout", 0) or 0))
         job.backend = backend
         if rc == -9:
             job.status, job.reason = "undecided", "timeout after %ds on %s" % (timeout, backend)
